@@ -1,6 +1,6 @@
 (* C19 — The package cache is transparent and survives crashes and concurrent
    writers.  Property theorems only; proofs are in Proofs/CacheProofs.v. *)
-From Apko Require Import Base.Prelude Model.Cache Spec.CacheSpec Proofs.CacheProofs.
+From Apko Require Import Base.Prelude Model.Cache Spec.CacheSpec Proofs.CacheProofs Generated.C19Cache.
 Open Scope string_scope. Open Scope list_scope.
 
 (* For every origin, every NUMBER of builders, each running the index or the
@@ -84,6 +84,24 @@ Proof.
   exists m. split; [exact w_bs_ok|]. split; [exact A|]. split; [exact B|exact C].
 Qed.
 Print Assumptions c19_tarfile_rebuild_refuted.
+
+(* The order of the durable file-system calls that goextract reads from the
+   source on this run is the order of the model's steps: download to a
+   temporary name, copy, THEN advertise (retrieveAndSaveFile); stat, then remove
+   the own copy or symlink (AdvertiseCachedFile); control, signature, data, tar
+   (cachePackage); and PackageData creates the FINAL name and copies into it. *)
+Theorem c19_code_order :
+  (forall o d e c1 c2, index_calls (populate_index o d e [c1; c2]) false = retrieve_calls) /\
+  advertise_call_names = advertise_calls /\
+  (forall o d a s, a_sig a = Some s -> cache_package_call_names (pkg_advs o d a) = cache_package_calls) /\
+  package_data_call_names = package_data_calls /\
+  retrieve_literals = ["os.CreateTemp:*.tmp"] /\ expand_literals = ["os.MkdirTemp:expand-apk"].
+Proof.
+  split; [intros; reflexivity|]. split; [reflexivity|].
+  split; [intros o d a s H; unfold pkg_advs; rewrite H; reflexivity|].
+  repeat split; reflexivity.
+Qed.
+Print Assumptions c19_code_order.
 
 (* the validator run on listings of real cache directories decides the
    readable statement *)
